@@ -26,6 +26,8 @@ def run_job(job):
             g = rdflib.Graph()
             g.parse(data=d['text'], format='nt')
             return Shaper(rdflib_graph=g, **kw)
+        if d['kind'] == 'files':
+            return Shaper(graph_list_of_files_input=list(d['paths']), input_format=C.NT, **kw)
         raise ValueError(d['kind'])
     try:
         if d['kind'] == 'endpoint':
